@@ -365,6 +365,15 @@ def np_repeat(interp, name, args, kw, st, node):
     rd = dim_of(r) if r is not None else None
     if sh is not None and len(sh) == 2 and rd is not None and rd.known() and ax is not None and ax.has_const and ax.const == 0 and all(d.known() for d in sh):
         return _pair_expand(interp, x, 0, rd, st, node)  # every row repeated consecutively
+    if sh is not None and len(sh) == 1 and isinstance(x.term, Term) and x.term.op == "arange" and len(x.term.args) == 1 and r is not None and r.kind == "arr" and shape(r) is not None and len(shape(r)) == 1 and shape(r)[0] == sh[0] and (ax is None or ax.kind == "none"):
+        # np.repeat(np.arange(n), L): position p carries the index of the block of lengths L it lies in
+        lt_ = r.term
+        while isinstance(lt_, Term) and lt_.op in ("astype", "astype_dyn"):
+            lt_ = lt_.args[0]
+        tot = call_external(interp, "numpy.sum", [r.replace(term=lt_)], {}, st, node)
+        td = dim_of(tot)
+        if td is not None and td.known():
+            return fresh_arr(T("block_labels", lt_), (td,), x.labels | r.labels, "int")
     return fresh_arr(callterm(name, args, kw), None, _L(*args, *kw.values()))
 
 
